@@ -949,6 +949,46 @@ def moved_and_sub_loaded_stream(ctx, res):
                             dict(case, ref_path=getattr(err, "ref_path", None)))
 
 
+def refused_list_assignment_stream(ctx, res):
+    """a refused assignment of a whole LIST that contains an item of another configuration (or of another list of this one) next to a
+    map the item schema rejects: the items offered stay where they were — a later rejection inside them is named by their own place
+    (recorded finding F70: the first item was linked to the new list before the second one was refused)"""
+    import cincoconfig as cc
+    node = cc.Schema()
+    node.host = cc.StringField(default="h")
+    node.port = cc.PortField(default=80)
+    for typed in (False, True):
+        T = cc.make_type(node, "RlaNode") if typed else node
+        s = cc.Schema()
+        s.servers = cc.ListField(T, default=lambda: [])
+        s.spare = cc.ListField(T, default=lambda: [])
+        for source in ("other-configuration", "other-list"):
+            a, b = s(), s()
+            a.servers = [{"host": "a0"}, {"host": "a1"}]
+            a.spare = [{"host": "s0"}, {"host": "s1"}]
+            offered = a.servers[1] if source == "other-configuration" else a.spare[1]
+            target = b if source == "other-configuration" else a
+            want = "servers[1].port" if source == "other-configuration" else "spare[1].port"
+            try:
+                target.servers = [offered, {"port": "not a port"}] if source == "other-configuration" else [a.servers[0], offered, {"port": "not a port"}]
+                refused = False
+            except Exception:  # noqa
+                refused = True
+            case = {"stream": "refused-list-assignment", "config_type": typed, "offered_item_from": source, "expected": want}
+            res.case(stable(case), kind="refused-list-assignment")
+            if not refused:
+                res.violate("C15:position:accepted", "a list holding a map with an invalid value was accepted", case)
+                continue
+            try:
+                offered.port = "not a port"
+                err = None
+            except Exception as e:  # noqa
+                err = e
+            if not isinstance(err, cc.ValidationError) or err.ref_path != want:
+                res.violate("C15:stale-path:refused-list-assignment", "after a refused assignment of a list, an item that had been offered in it reports its rejections under the "
+                            "position it would have had in the refused list", dict(case, ref_path=getattr(err, "ref_path", None)))
+
+
 def friendly_names_stream(ctx, res):
     """a friendly `name=` is for messages about the field itself; the PATH is made of keys: lists of configurations, typed dicts and
     leaves declared with a friendly name report rejections below them under their key and the item's index, by every route"""
@@ -1002,6 +1042,7 @@ def run(ctx, n_quick=250, n_thorough=8000):
     guard(res, "C15", position_and_nesting_stream, ctx, res)
     guard(res, "C15", moved_and_sub_loaded_stream, ctx, res)
     guard(res, "C15", friendly_names_stream, ctx, res)
+    guard(res, "C15", refused_list_assignment_stream, ctx, res)
     return res
 
 
